@@ -216,6 +216,9 @@ class End:
         from asyncfix.connection import ConnectionState
         await self.conn.disconnect(ConnectionState.DISCONNECTED_BROKEN_CONN)
 
+    def out_rows(self):
+        return len([r for r in self.journal.get_all_msgs() if r[2] == 1])
+
     def wproj(self):
         c = self.conn
         s = c._session
@@ -264,7 +267,9 @@ class ImplNet:
         self.loop = loop
         self.q = [[], []]                      # q[s] = frames in flight TOWARDS side s (0 = A, 1 = B)
         self.ends = [End(True, self.q[1]), End(False, self.q[0])]
-        self.accepted = [[], []]
+        self.accepted = [[], []]            # send calls that returned
+        self.committed = [[], []]           # accepted, or raised from the dead transport after the journal write
+        self.attempted_failed = [[], []]
         self.nid = 1
         self.reply_lost = False                # class predicate: a resend reply was in flight at a break
 
@@ -294,17 +299,23 @@ class ImplNet:
         del self.q[1][:]
 
     def do_send(self, s, fail):
+        """accepted: the call returned.  committed: accepted, or it raised from the dead transport AFTER the message
+        had been journaled (send_msg journals first): the session layer owns it, the peer's ResendRequest recovers it."""
         text = "m%d" % self.nid
         self.nid += 1
         if fail:
             self.ends[s].kill_writer()
+        rows_before = self.ends[s].out_rows()
         try:
             self.wait(self.ends[s].send_app(text))
             self.accepted[s].append(text)
+            self.committed[s].append(text)
         except asyncio.TimeoutError:
             raise
         except Exception:  # noqa: BLE001 - refused (state gate, dead transport, journal error)
-            pass
+            self.attempted_failed[s].append(text)
+            if fail and self.ends[s].out_rows() > rows_before:
+                self.committed[s].append(text)
 
     def do_deliver(self, s):
         if self.q[s]:
@@ -363,7 +374,7 @@ class ImplNet:
         return [e[0].wproj(), e[1].wproj(),
                 [e[0].frame_proj(f) for f in self.q[1]], [e[0].frame_proj(f) for f in self.q[0]],
                 opt(e[0].got), opt(e[1].got),
-                [codes(x) for x in self.accepted[0]], [codes(x) for x in self.accepted[1]],
+                [codes(x) for x in self.committed[0]], [codes(x) for x in self.committed[1]],
                 [1 if self.pending(0) else 0, 1 if self.pending(1) else 0, 1 if self.link_down() else 0]]
 
     def oracle(self):
@@ -378,12 +389,19 @@ class ImplNet:
             bad.append("A expects %d, B's next outbound is %d" % (e[0].nin, e[1].nout))
         if e[1].nin != e[0].nout:
             bad.append("B expects %d, A's next outbound is %d" % (e[1].nin, e[0].nout))
-        for who, got, acc in (("B", e[1].got, self.accepted[0]), ("A", e[0].got, self.accepted[1])):
-            if got != acc:
-                lost = [x for x in acc if x not in got]
-                dup = sorted({x for x in got if got.count(x) > 1})
+        for who, got, acc, com in (("B", e[1].got, self.accepted[0], self.committed[0]),
+                                   ("A", e[0].got, self.accepted[1], self.committed[1])):
+            # every accepted message exactly once and in sending order; anything else that is delivered must be a
+            # send that raised from the dead transport after it had been journaled (in doubt for the caller, owned by
+            # the session layer), also at most once and in sending order: got = the committed sends, in order
+            lost = [x for x in acc if x not in got]
+            dup = sorted({x for x in got if got.count(x) > 1})
+            if lost or dup or [x for x in got if x in acc] != acc:
                 bad.append("%s's application received %r, the peer's accepted sends are %r%s%s" % (
                     who, got, acc, (" lost=%r" % lost) if lost else "", (" duplicated=%r" % dup) if dup else ""))
+            elif got != com:
+                bad.append("%s's application received %r, the peer's committed sends (accepted, or journaled before the "
+                           "write failed) are %r" % (who, got, com))
         return "; ".join(bad) if bad else None
 
     def close(self):
@@ -642,7 +660,9 @@ WITNESSES = [
     "REC dB dA sA sB BRK REC",                    # both directions in flight
     # C07_repeated_breaks_instance: n = 5, four in flight, then breaks after 1, 0 and 2 retransmissions
     "REC dB dA sA sA sA sA sA dB BRK REC dB dA dA dB BRK REC dB dA dA BRK REC dB dA dA dB dB BRK REC",
-    "REC dB dA sA fA REC",                        # write error variant
+    "REC dB dA sA fA REC",                        # write error variant: m2 journaled, write raises, recovered (C07_failed_write)
+    "REC dB dA sA sA dB fA REC",                  # ... with one more frame in flight
+    "REC dB dA sB fB REC",                        # the acceptor's send meets the dead transport
 ]
 
 
@@ -664,6 +684,7 @@ def run(ctx):
 
     # ---- (i) exploration of the model: the bound of the property text --------------------------------------
     explored = {}
+    ft_leaves = []
     if model:
         bounds = [(3, 2, ctx.scale(12, 14), False)]
         if thorough:
@@ -686,6 +707,9 @@ def run(ctx):
                 check(ctx, a, impl, model.call(sx_req(a)), "model-failure-outside-class")
             if ms == 3 and mb == 2 and not ft:
                 main_leaves, main_failing = leaves, failing
+            if ft:
+                # the tree with a break point inside a send (write()/drain() raise after the journal write)
+                ft_leaves = leaves + failing[:100]
         ctx.extra["model_exploration"] = explored
         ctx.extra["model_exploration_note"] = "exploration with exact state hashing, NOT a proof; every state settled and decided"
     else:
@@ -698,7 +722,7 @@ def run(ctx):
         # thorough: the tree of the property-text bound
         # the exploration tree of the main bound (quick: depth 12, thorough: the property-text bound, depth 14):
         # every explored state is visited on the implementation; plus any failing state of the model
-        tree = main_leaves + main_failing[:300]
+        tree = main_leaves + main_failing[:300] + ft_leaves
         scheds += tree
     seen_txt, uniq = set(), []
     for a in scheds:
